@@ -303,8 +303,11 @@ def r07_3(ctx):
         for sd in (1, 2, 3):
             for i in range(sd):
                 v = eval_affine(e, {'i': i, 'sdim': sd})
-                if v != sd - 1 - i:
-                    ok = False if v is not None else None
+                # the last axis has length sdim: a negative index -1-i addresses the same slot as sdim-1-i
+                if v is None:
+                    ok = None if ok is not False else False
+                elif not (-sd <= v < sd) or v % sd != sd - 1 - i:
+                    ok = False
         ctx.decide('R07.3', '%s.%s' % (B, name), 'derivative slot ' + src(e), ok, e,
                    'grid_jacobian stacks reversed(range(sdim)): derivative w.r.t. axis i sits at sdim-1-i')
     gj = ctx.prog.func(B + '.BSplineFunc.grid_jacobian')
